@@ -55,42 +55,54 @@ def shlBoxed (a : List Nat) (k : Nat) : List Nat :=
   let w := 64 * a.length
   toWords a.length (if k < w then (CB.val a * 2 ^ k) % 2 ^ w else 0)
 
-/-- `safegcd::boxed::gcd(f, g)` result → `BoxedUint`: `to_uint(f.bits_precision())` asserts
-    non-negativity (always) and, with debug assertions (`dbg`), that the unsaturated limb count —
-    computed from `max(f.nlimbs(), g.nlimbs())` — is the one of `f`'s precision
-    (boxed.rs:321; `safegcd_nlimbs!` is strictly increasing in the limb count, so this is `g` not
-    longer than `f`). `none` = panic. -/
-def boxedOddGcdD (dbg vartime : Bool) (f g : List Nat) : Option (List Nat) :=
-  let r := CB.SafeGcd.gcdBoxed vartime f g
-  if dbg && CB.SafeGcd.nlimbsFor (max f.length g.length * 64) != CB.SafeGcd.nlimbsFor (f.length * 64) then none
-  else if r.negative then none else some r.value
+/-- `BoxedUint::widen(bits)`: zero limbs appended up to `n` limbs (`n ≥ a.length` at every call site). -/
+def widenBoxed (a : List Nat) (n : Nat) : List Nat := a ++ List.replicate (n - a.length) 0
 
-/-- `impl Gcd for BoxedUint :: gcd`; `dbg` = the build has debug assertions: `ct_select` then
-    `debug_assert_eq!`s equal precisions (ct.rs:11). `none` = panic. -/
-def boxedGcdD (dbg : Bool) (a b : List Nat) : Option (List Nat) :=
+/-- `Odd<BoxedUint>::gcd(_vartime)` = `safegcd::boxed::gcd(_vartime)`: `to_uint` asserts
+    non-negativity. `none` = panic. Result at `f`'s precision. -/
+def boxedOddGcd (vartime : Bool) (f g : List Nat) : Option (List Nat) :=
+  let r := CB.SafeGcd.gcdBoxed vartime f g
+  if r.negative then none else some r.value
+
+/-- `impl Gcd for BoxedUint :: gcd` (as repaired by /repo 1970abd): both operands are widened to the
+    larger precision first, so `ct_select` sees equal limb counts; result at the larger precision. -/
+def boxedGcd (a b : List Nat) : Option (List Nat) :=
+  let n := max a.length b.length
+  let lhs := widenBoxed a n
+  let rhs := widenBoxed b n
+  let k1 := tz (64 * lhs.length) (CB.val lhs)
+  let k2 := tz (64 * rhs.length) (CB.val rhs)
+  let k := if k2 < k1 then k2 else k1
+  let s1 := shrBoxed lhs k
+  let s2 := shrBoxed rhs k
+  let s2odd := decide (s2.headD 0 % 2 = 1)
+  match ctSelectBoxed s1 s2 (!s2odd), ctSelectBoxed s1 s2 s2odd with
+  | some f, some g =>
+    match boxedOddGcd false f g with
+    | some r => some (shlBoxed r k)
+    | none => none
+  | _, _ => none
+
+/-- `BoxedUint::gcd_vartime`: odd `self` → `Odd::gcd_vartime` (result at `self`'s precision),
+    else the constant-time `gcd` (result at the larger precision). -/
+def boxedGcdVartime (a b : List Nat) : Option (List Nat) :=
+  if a.headD 0 % 2 = 1 then boxedOddGcd true a b else boxedGcd a b
+
+/-- the behaviour BEFORE /repo 1970abd (kept for the record, not used by the driver): no widening —
+    a shorter `rhs` indexes out of bounds, a longer one is cut to `self`'s precision. -/
+def boxedGcdOld (a b : List Nat) : Option (List Nat) :=
   let k1 := tz (64 * a.length) (CB.val a)
   let k2 := tz (64 * b.length) (CB.val b)
   let k := if k2 < k1 then k2 else k1
   let s1 := shrBoxed a k
   let s2 := shrBoxed b k
   let s2odd := decide (s2.headD 0 % 2 = 1)
-  if dbg && a.length != b.length then none else
   match ctSelectBoxed s1 s2 (!s2odd), ctSelectBoxed s1 s2 s2odd with
   | some f, some g =>
-    match boxedOddGcdD dbg false f g with
+    match boxedOddGcd false f g with
     | some r => some (shlBoxed r k)
     | none => none
   | _, _ => none
-
-/-- `BoxedUint::gcd_vartime`. -/
-def boxedGcdVartimeD (dbg : Bool) (a b : List Nat) : Option (List Nat) :=
-  if a.headD 0 % 2 = 1 then boxedOddGcdD dbg true a b else boxedGcdD dbg a b
-
-/-- release-profile forms -/
-def boxedGcd (a b : List Nat) : Option (List Nat) := boxedGcdD false a b
-/-- `Odd<BoxedUint>::gcd(_vartime)` = `safegcd::boxed::gcd(_vartime)`. -/
-def boxedOddGcd (vartime : Bool) (f g : List Nat) : Option (List Nat) := boxedOddGcdD false vartime f g
-def boxedGcdVartime (a b : List Nat) : Option (List Nat) := boxedGcdVartimeD false a b
 
 /-! ### L0: what the property demands -/
 
